@@ -20,7 +20,8 @@ BOUNDS = {'programs': 'one template: three PEN ON/OFF/STOP commands (every combi
           'schedule': 'six possible occurrence points (after the statements T%=Xi%: in the main line, inside '
                       'the trap handler, inside the error handler, after the error), each taken or not by a '
                       'symbolic bit: all 64 schedules x 27 command combinations',
-          'outside': 'KEY/TIMER/PLAY/STRIG/COM traps (same EventHandler base class; TIMER and PLAY depend on '
+          'third and fourth template': 'PEN ON + every 3-command sequence with 4 occurrence bits; all four STRIG traps defined, STRIG(N%) ON for every 16-bit N%, every (joystick, button) signal',
+          'outside': 'KEY/TIMER/PLAY/COM traps, STRIG beyond the ON/definition correspondence (same EventHandler base class; TIMER and PLAY depend on '
                      'clock and sound queue), several traps pending at once (handled in set-iteration order), '
                      'real timing'}
 ASSUMPTIONS = ['z3 decides the formulas', 'symx models validated per path',
@@ -181,4 +182,105 @@ def body_error_return(h):
 
 def cases(tier):
     return [Case('pen-trap-c%d' % c0, body, params={'c0': c0}, timeout_s=3000, max_paths=400000)
-            for c0 in (0, 1, 2)] + [Case('error-handler-returns-from-trap', body_error_return, timeout_s=900)]
+            for c0 in (0, 1, 2)] + [Case('error-handler-returns-from-trap', body_error_return, timeout_s=900)] + cases_more()
+
+
+# ---- four commands: a trap that is switched ON again after STOP / OFF (pending occurrences) -------------
+
+def _program4(c):
+    cmds = b''.join(CMD[k] + b': T%=X' + str(i + 1).encode() + b'%: M%=M%+1: ' for i, k in enumerate(c))
+    return [b'10 ON PEN GOSUB 100',
+            b'20 ' + cmds + b'M%=M%+1',
+            b'40 M%=M%+1: END',
+            b'100 P%=P%+1: RETURN']
+
+
+def _reference4(c, X):
+    st = {'en': False, 'stop': False, 'pend': False, 'P': 0}
+
+    def boundary():
+        if st['pend'] and st['en'] and not st['stop']:
+            st['pend'] = False
+            st['P'] += 1
+    for i, k in enumerate(c):
+        if k == 0:
+            st['en'], st['stop'] = True, False
+        elif k == 1:
+            st['en'] = False
+        else:
+            st['stop'] = True
+        boundary()
+        if X[i + 1] and st['en']:
+            st['pend'] = True
+        boundary()
+        boundary()
+    boundary()
+    return st['P']
+
+
+def body4(h):
+    c = (0, h.params['c1'], h.concretize(h.int('c2', 0, 2)), h.concretize(h.int('c3', 0, 2)))
+    names = [b'T%', b'M%', b'P%'] + [b'X%d%%' % i for i in range(1, 5)]
+    impl = _setup(h, _program4(c), names)
+    S = h.P.basic.base.signals._module()
+    X = [None]
+    for i in range(1, 5):
+        raw = h.bytes('x%d' % i, 2)
+        h.assume(s_and(raw[1] == 0, raw[0] <= 1))
+        session.poke_int(h, impl, b'X%d%%' % i, raw)
+        X.append(raw[0] != 0)
+    orig = impl.queues.check_events
+    tvar = impl.scalars._vars[b'T%']
+
+    def check_events():
+        if tvar[0] != 0:
+            tvar[0] = 0
+            impl.queues.inputs.put(S.Event(S.PEN_DOWN, (1, 1)))
+        return orig()
+    impl.queues.check_events = check_events
+    impl.execute(b'GOTO 10')
+    P, M = _geti(impl, b'P%'), _geti(impl, b'M%')
+    bits = [None] + [bool(x) for x in X[1:]]
+    h.require('handler-entries', P == _reference4(c, bits))
+    h.require('main-program-unaffected', s_and(M == 6, impl.interpreter.error_num == 0))
+    return [P, M]
+
+
+# ---- STRIG: the trap that STRIG(n) ON enables is the one ON STRIG(n) GOSUB defined ------------------------
+
+def body_strig(h):
+    prog = [b'10 ON STRIG(0) GOSUB 100: ON STRIG(2) GOSUB 110: ON STRIG(4) GOSUB 120: ON STRIG(6) GOSUB 130',
+            b'20 STRIG(N%) ON',
+            b'30 T%=1: M%=M%+1: M%=M%+1: END',
+            b'100 R%=R%+1: RETURN', b'110 R%=R%+10: RETURN', b'120 R%=R%+100: RETURN',
+            b'130 R%=R%+1000: RETURN']
+    impl = _setup(h, prog, [b'T%', b'M%', b'R%', b'N%'])
+    S = h.P.basic.base.signals._module()
+    n = h.bytes('n', 2)
+    N = s16(n)
+    joy, button = h.concretize(h.int('joy', 0, 1)), h.concretize(h.int('button', 0, 1))
+    session.poke_int(h, impl, b'N%', n)
+    orig = impl.queues.check_events
+    tvar = impl.scalars._vars[b'T%']
+
+    def check_events():
+        if tvar[0] != 0:
+            tvar[0] = 0
+            impl.queues.inputs.put(S.Event(S.STICK_DOWN, (joy, button)))
+        return orig()
+    impl.queues.check_events = check_events
+    impl.execute(b'GOTO 10')
+    R, M = _geti(impl, b'R%'), _geti(impl, b'M%')
+    err = impl.interpreter.error_num
+    own = ite(N == 0, 1, ite(N == 2, 10, ite(N == 4, 100, ite(N == 6, 1000, 0))))
+    h.require('only-the-enabled-trap-fires', s_or(R == 0, R == own))
+    h.require('operand-range', s_iff(s_or(N < 0, N > 255), err == IFC))
+    h.require('main-program-unaffected', s_implies(err == 0, M == 2))
+    return [R, M, err]
+
+
+def cases_more():
+    cs = [Case('pen-trap-4cmd-on-c%d' % c1, body4, params={'c1': c1}, timeout_s=3000, max_paths=400000)
+          for c1 in (0, 1, 2)]
+    cs.append(Case('strig-on-matches-on-strig-gosub', body_strig, timeout_s=900, max_fanout=300))
+    return cs
